@@ -41,3 +41,6 @@ Definition ustate_of_N (n : N) : ustate :=
   match n with 0 => U0 | 1 => U1 | 2 => U2 | 3 => U2a | 4 => U2b | 5 => U3 | 6 => U3a | 7 => U3b | _ => URej end.
 Definition mk_upairs (l : list (N * list N)) : upairs :=
   mk_map pid (map (fun kv => (fst kv, map ustate_of_N (snd kv))) l).
+
+Definition mk_reach (l : list (N * (N * N * N))) : reachmap :=
+  mk_map pid (map (fun kv => match snd kv with (p, u, n) => (fst kv, (pid p, u, n)) end) l).
